@@ -129,6 +129,9 @@ def plan(tier, seed):
                     S = [POOL[cx % 8]] if form == "bare" else [POOL[cx % 8], POOL[(cx + 3) % 8], "payload"]
                     specs.append({"family": 4 * (cx % 3), "S": S, "T": [] if form == "bare" else [["str"], ["ndarray"], []][cx % 3], "S2": None, "store": store.replace("auto_", ""),
                                   "auto": store.startswith("auto"), "mode": mode, "compression": comp, "form": form, "scalar_skip": form == "bare", "cross": True})
+    # a type that cannot be re-imported under its recorded name (NoneType) and one that can: always run
+    for fam in (0, 1, 2, 3):
+        specs.append({"family": fam, "S": [POOL[fam]] if fam % 2 else [], "T": ["NoneType"] if fam < 2 else ["NoneType", "str"], "S2": None, "store": "zip" if fam % 2 else "dir", "_must_run": True})
     # size thresholds: > 1000 attributes (a third of them skipped), > 50 levels with the same names at every level
     for store in ("zip", "dir"):
         specs.append({"family": "wide", "S": ["a%04d" % i for i in range(0, 1100, 3)] + ["arr07", "zz"], "T": ["str"], "S2": ["a0001", "arr08"], "store": store, "_must_run": tier == "quick"})
